@@ -140,7 +140,20 @@ func (fr *Frame) obligeAt(reach, kind, detail, formula, src string) {
 	}
 	ob := &Obligation{Name: name, Kind: kind, Func: fr.prefix, Pos: fr.instrPos(), Reach: reach, Formula: formula, At: len(e.sc.lines), Src: src}
 	e.sc.obls = append(e.sc.obls, ob)
+	if kind == "assert-at" && fr.ordinal[base] == 1 {
+		// path-local vacuity guard (first site of each clause; later instances are mostly deferred calls replayed at
+		// every return, some of which are legitimately dead): the program point of a call-site / return / store clause must be reachable under
+		// everything assumed so far (an inconsistent assumed contract makes every later clause true for no reason,
+		// and the function's exit can still be reachable through an earlier return)
+		e.sc.obls = append(e.sc.obls, &Obligation{Name: name + "#reachable", Kind: "cover", Func: fr.prefix, Pos: fr.instrPos(), Reach: reach, Formula: "false", At: len(e.sc.lines), Cover: true})
+	}
 	e.sc.emit("; obligation " + name)
+	for _, x := range e.noAssume {
+		if strings.Contains(name, x) {
+			e.sc.emit("; (not assumed afterwards)")
+			return
+		}
+	}
 	e.sc.assert(sImp(reach, formula))
 }
 
